@@ -191,3 +191,86 @@ Definition unmarshal (data : bytes) : res := run_lines_gen true empty_frag None 
 (* the same code without the nil test before "a=mid:" *)
 Definition unmarshal_unguarded (data : bytes) : res :=
   run_lines_gen false empty_frag None (scan_lines data).
+
+(* ------------------------------------------------------------------ *)
+(* SDPFrag.Marshal, SDPFrag.UFragPwd, SDPFrag.AllCandidates (the PATCH handler
+   of webserver/whip.go calls UFragPwd and AllCandidates on the fragment parsed
+   from the request body, and Marshal on the fragment of an ICE restart).
+
+   Marshal is a sequence of fmt.Fprintf(w, "<prefix>%v\r\n", <string>) into one
+   bytes.Buffer; %v of a string is the string.  [marshal_lines] is the list of
+   the "<prefix><string>" in the order of the calls, [marshal] the buffer.  A
+   string field equal to "" is not printed (ufrag, pwd); the mid of a media
+   section is always printed.  Session-level candidates are printed as
+   "a=<Candidate>", candidates of a media section as "a=candidate:<Candidate>",
+   as the code has it.  Marshal always returns a nil error; there is no
+   pointer in it (the receiver of the call in whip.go is the address of a
+   local variable). *)
+
+Definition crlf : bytes := [13; 10].
+Definition p_a : bytes := [97; 61].                       (* "a=" *)
+
+(* if v != "" { fmt.Fprintf(w, "<p>%v\r\n", v) } *)
+Definition opt_line (p v : bytes) : list bytes :=
+  match v with
+  | [] => []
+  | _ :: _ => [p ++ v]
+  end.
+
+Definition md_lines (m : md) : list bytes :=
+  (p_m ++ md_mline m) :: (p_mid ++ md_mid m) ::
+  opt_line p_ufrag (md_ufrag m) ++ opt_line p_pwd (md_pwd m) ++
+  map (fun c => p_cand ++ cd_cand c) (md_cands m).
+
+Definition marshal_lines (f : frag) : list bytes :=
+  opt_line p_ufrag (f_ufrag f) ++ opt_line p_pwd (f_pwd f) ++
+  map (fun c => p_a ++ cd_cand c) (f_cands f) ++
+  flat_map md_lines (f_mds f).
+
+(* the buffer: every line followed by "\r\n" (right-nested appends: linear) *)
+Definition marshal (f : frag) : bytes := flat_map (fun l => l ++ crlf) (marshal_lines f).
+
+(* the same, as the code does it: w grows at its end, call after call
+   (quadratic on lists; not extracted, Proofs/SdpFragRoundTrip.marshal_buf_eq) *)
+Definition fprintf (w p v : bytes) : bytes := w ++ p ++ v ++ crlf.
+Definition fprintf_opt (w p v : bytes) : bytes :=
+  match v with [] => w | _ :: _ => fprintf w p v end.
+Definition marshal_md_buf (w : bytes) (m : md) : bytes :=
+  let w := fprintf w p_m (md_mline m) in
+  let w := fprintf w p_mid (md_mid m) in
+  let w := fprintf_opt w p_ufrag (md_ufrag m) in
+  let w := fprintf_opt w p_pwd (md_pwd m) in
+  fold_left (fun w c => fprintf w p_cand (cd_cand c)) (md_cands m) w.
+Definition marshal_buf (f : frag) : bytes :=
+  let w := [] in
+  let w := fprintf_opt w p_ufrag (f_ufrag f) in
+  let w := fprintf_opt w p_pwd (f_pwd f) in
+  let w := fold_left (fun w c => fprintf w p_a (cd_cand c)) (f_cands f) w in
+  fold_left marshal_md_buf (f_mds f) w.
+
+(* UFragPwd: the session-level pair if the session-level ufrag is not "",
+   else the pair of the first media section whose ufrag is not "", else "","" *)
+Fixpoint ufrag_pwd_mds (ms : list md) : bytes * bytes :=
+  match ms with
+  | [] => ([], [])
+  | m :: ms' =>
+      match md_ufrag m with
+      | [] => ufrag_pwd_mds ms'
+      | _ :: _ => (md_ufrag m, md_pwd m)
+      end
+  end.
+
+Definition ufrag_pwd (f : frag) : bytes * bytes :=
+  match f_ufrag f with
+  | [] => ufrag_pwd_mds (f_mds f)
+  | _ :: _ => (f_ufrag f, f_pwd f)
+  end.
+
+(* AllCandidates: cs = append(cs, f.Candidates...), then append(cs,
+   m.Candidates...) for every media section in order (right-nested: linear) *)
+Definition all_candidates (f : frag) : list cand :=
+  f_cands f ++ flat_map md_cands (f_mds f).
+
+(* the same with the appends of the code *)
+Definition all_candidates_loop (f : frag) : list cand :=
+  fold_left (fun cs m => cs ++ md_cands m) (f_mds f) ([] ++ f_cands f).
